@@ -171,6 +171,8 @@ pub enum Step {
     SetIdCounterBefore { token: String, back: i32 },
     /// query last_id()/is_closed() (recorded)
     Probe,
+    /// ask the driver for the peer certificate (recorded as a class)
+    ProbeCert,
 }
 
 #[derive(Clone, Debug, Default, PartialEq, Serialize, Deserialize)]
@@ -250,6 +252,9 @@ pub struct Hostile {
     /// everything the server sends after the item is held back this long (0 = follows at once)
     #[serde(default)]
     pub gap_after_ms: u64,
+    /// identifier octet of the nested constructed elements of `nest` (0 = 0x30, SEQUENCE)
+    #[serde(default)]
+    pub nest_tag: u8,
 }
 
 #[derive(Clone, Debug, PartialEq, Serialize, Deserialize)]
@@ -277,6 +282,9 @@ pub struct PagingModel {
     /// position of the paging control among the response controls (None = last)
     #[serde(default)]
     pub paged_ctrl_pos: Option<usize>,
+    /// the server hands out the same (non-empty) cookie for every page of a search and keeps the position itself
+    #[serde(default)]
+    pub constant_cookie: bool,
 }
 
 #[derive(Clone, Debug, Default, PartialEq, Serialize, Deserialize)]
